@@ -9,7 +9,7 @@
 EXTENDS WireSize, TLC
 CONSTANTS MaxActions, SizeClasses, Mode, Original, MaxPerBigClass, ManyBases
 
-VARIABLES shape
+VARIABLES shape, go        \* go: the invariant is evaluated on the successor state (TLC reports no state count for a violated initial state)
 SC5 == <<1, 127, 128, 300, 16384>>
 SC3 == <<1, 128, 16384>>
 SC1 == <<1>>
@@ -39,19 +39,20 @@ KeySeqs == {<<>>, <<K1>>, <<K2>>, <<K3>>, <<K1, K2>>, <<K1, K3>>, <<K2, K3>>, <<
 KeyActions == [size : {1}, keys : KeySeqs, compute : {0, 2}]
 
 Init ==
-  IF Mode = "size"
-    THEN \E c \in Counts, a \in AuthKinds, b \in BaseVariants :
-           shape = [sizes |-> Expand(c, 1), auth |-> a, base |-> b]
-    ELSE \E n \in 0..MaxActions : \E acts \in [1..n -> KeyActions] : \E kc \in {0, 1, 5}, vc \in {0, 1, 3}, bc \in 1..2 :
-           shape = [actions |-> acts, cost |-> <<kc, vc>>, balChunks |-> bc]
-Next == FALSE /\ UNCHANGED shape
-Spec == Init /\ [][Next]_shape
+  /\ go = FALSE
+  /\ IF Mode = "size"
+       THEN \E c \in Counts, a \in AuthKinds, b \in BaseVariants :
+              shape = [sizes |-> Expand(c, 1), auth |-> a, base |-> b]
+       ELSE \E n \in 0..MaxActions : \E acts \in [1..n -> KeyActions] : \E kc \in {0, 1, 5}, vc \in {0, 1, 3}, bc \in 1..2 :
+              shape = [actions |-> acts, cost |-> <<kc, vc>>, balChunks |-> bc]
+Next == ~go /\ go' = TRUE /\ UNCHANGED shape
+Spec == Init /\ [][Next]_<<shape, go>>
 
 Est(s) == IF Original THEN EstimateSizeAsOriginallyCoded(s.sizes, AuthLen(s.auth)) ELSE EstimateSize(s.sizes, AuthLen(s.auth))
 
 (* C14 *)
-EstimateCoversSize == Mode = "size" => Est(shape) >= ActualSize(shape.base, shape.sizes, AuthLen(shape.auth))
+EstimateCoversSize == (go /\ Mode = "size") => Est(shape) >= ActualSize(shape.base, shape.sizes, AuthLen(shape.auth))
 EstimateCoversStorage ==
-  Mode = "keys" => /\ EstimateStorage(shape.actions, <<shape.balChunks>>, shape.cost) >= ActualStorage(shape.actions, shape.balChunks, shape.cost)
+  (go /\ Mode = "keys") => /\ EstimateStorage(shape.actions, <<shape.balChunks>>, shape.cost) >= ActualStorage(shape.actions, shape.balChunks, shape.cost)
                    /\ Compute(1, shape.actions, 5) >= Compute(1, shape.actions, 5)
 =============================================================================
